@@ -114,4 +114,17 @@ CLAIMS = {
         'not_decided': 'that the times recorded at run time dominate the inputs\' times (clock / file system); '
                        'multi-session interplay.',
     },
+    'C03': {
+        'design': '5.3',
+        'technique': 'guard facts (required and forbidden) + loop-bound provenance + sibling counter agreement over clang CFG facts',
+        'decides': 'in the inputs scan only non-order-only inputs influence dirtiness / most-recent-input while '
+                   'readiness propagation is not filtered by kind; is_order_only has the documented definition; the '
+                   'restat prune examines exactly [begin, end - order_only); changed command / missing log entry '
+                   'do not dirty generator rules and the generator flag exempts nothing else; a phony edge is '
+                   'dirty only with no inputs, no validations and a missing output, and adopts input mtimes only '
+                   'while missing (max); CleanNode un-wants only under all-inputs-clean and outputs-clean, paired '
+                   'with the counters, and the non-phony counter/status adjustments mirror EdgeWanted; edges whose '
+                   'outputs are ready are never inserted into the plan.',
+        'not_decided': 'equality of the executed command set with a reference make-semantics model.',
+    },
 }
